@@ -2,7 +2,7 @@
    images, which is injective) with relations observed on the implementation *)
 From Coq Require Import ZArith Bool List PrimFloat.
 From PR Require Model.Grid Model.SliceArea Model.Stack.
-From PR Require Import Base.Num Base.F64 Base.Slice Base.ListX Model.HashEq Gen.GenC12 Model.C12_slice.
+From PR Require Import Base.Num Base.F64 Base.Slice Base.ListX Model.HashEq Gen.GenC12 Model.C12_slice Model.C12_f32.
 Import ListNotations.
 Open Scope Z_scope.
 
@@ -17,14 +17,26 @@ Definition tok_eqb (a b : tok float) : bool :=
   end.
 Definition img_eqb (a b : list (tok float)) : bool := list_eqb tok_eqb a b.
 
-Inductive geo := GA (a : harea float) | GS (s : swath float) | GSt (l : list (harea float)).
+(* f32: the extent is a float32 array for numpy (all four numbers np.float32) / the swath arrays are float32 *)
+Inductive geo := GA (a : harea float) (f32 : bool) | GS (s : swath float) (f32 : bool) | GSt (l : list (harea float)).
 Definition geo_image (g : geo) : list (tok float) :=
-  match g with GA a => area_image F64 a | GS s => swath_image s | GSt l => stack_image F64 l end.
+  match g with GA a _ => area_image F64 a | GS s _ => swath_image s | GSt l => stack_image F64 l end.
+
+(* np.isclose(x, y) as numpy evaluates it on arrays of possibly different precision: |x - y| in the promoted dtype,
+   atol + rtol * |y| in the dtype of y (the Python-float tolerances are cast to it) *)
+Definition isclose_np (xs ys : bool) (x y : float) : bool :=
+  let OL := if xs && ys then F32 else F64 in
+  let OR := if ys then F32 else F64 in
+  (PrimFloat.leb (PrimFloat.abs (sub OL x y)) (add OR (atol_area OR) (mul OR (rtol_area OR) (PrimFloat.abs y))) && f_isfinite y)
+  || PrimFloat.eqb x y.
+Definition area_eq_np (ceq : bool) (a : harea float) (xs : bool) (b : harea float) (ys : bool) : bool :=
+  list_eqb (isclose_np xs ys) (ext_list (h_ext a)) (ext_list (h_ext b)) && ceq && ((h_h a =? h_h b) && (h_w a =? h_w b)).
+
 (* ceq: what pyproj answers for crs(a) == crs(b) (areas only) *)
 Definition geo_eq (ceq : bool) (a b : geo) : bool :=
   match a, b with
-  | GA x, GA y => area_eq F64 (fun _ _ => ceq) x y
-  | GS x, GS y => swath_eq F64 x y
+  | GA x xs, GA y ys => if xs || ys then area_eq_np ceq x xs y ys else area_eq F64 (fun _ _ => ceq) x y
+  | GS x xs, GS y ys => if xs && ys then swath_eq F32 x y else swath_eq F64 x y
   | _, _ => false
   end.
 Definition dflt_geo : geo := GSt [].
@@ -68,7 +80,7 @@ Fixpoint a_run (pool : list geo) (rt : Z -> Z) (orig : harea float) (o : obj (ha
   | (p, (mok, deq, tk, w, h, e)) :: r =>
       let eq_ok := match p with
                    | AEq j c12 c21 e12 e21 =>
-                       Bool.eqb (geo_eq c12 (GA (coords o)) (pick pool j)) e12 && Bool.eqb (geo_eq c21 (pick pool j) (GA (coords o))) e21
+                       Bool.eqb (geo_eq c12 (GA (coords o) false) (pick pool j)) e12 && Bool.eqb (geo_eq c21 (pick pool j) (GA (coords o) false)) e21
                    | _ => true end in
       let o' := a_step rt o (a_op p) in
       let c := coords o' in
@@ -82,7 +94,7 @@ Definition area_hist_case := (Z * list (Z * Z) * list (aop * aobs))%type.
 Definition chk_area_hist (pool : list geo) (c : area_hist_case) : bool :=
   let '(i, tab, l) := c in
   match pick pool i with
-  | GA a => a_run pool (lookup tab) a (new_obj a) l
+  | GA a _ => a_run pool (lookup tab) a (new_obj a) l
   | _ => false
   end.
 
@@ -96,7 +108,7 @@ Definition rows_eqb (a b : list (list float)) : bool := list_eqb (list_eqb same_
 Definition s_slc (c : swath float) (k : oslice * oslice * (Z * Z)) : swath float := swath_slice c (fst k) (snd k).
 Definition s_step := step (swath float) (list (tok float)) (oslice * oslice * (Z * Z)) (@swath_image float)
                           (@swath_append float) s_slc (@swath_copy float).
-Definition swath_of (g : geo) : swath float := match g with GS s => s | _ => mk_swath 0 0 [] [] 0 0 end.
+Definition swath_of (g : geo) : swath float := match g with GS s _ => s | _ => mk_swath 0 0 [] [] 0 0 end.
 Definition s_op (pool : list geo) (p : sop) : op (swath float) (oslice * oslice * (Z * Z)) :=
   match p with
   | SHash => OHash | SEq j _ _ => OEq (swath_of (pick pool j)) | SAppend j => OAppend (swath_of (pick pool j))
@@ -126,7 +138,7 @@ Definition swath_hist_case := (Z * list (sop * sobs))%type.
 Definition chk_swath_hist (pool : list geo) (c : swath_hist_case) : bool :=
   let '(i, l) := c in
   match pick pool i with
-  | GS s => s_run pool s (new_obj s) l
+  | GS s _ => s_run pool s (new_obj s) l
   | _ => false
   end.
 
@@ -151,7 +163,7 @@ Inductive kop := KHash | KAppend (j : Z).
    original's, number of members after merging *)
 Definition kobs := (bool * bool * bool * Z)%type.
 Definition k_step := step kstate (list (tok float)) unit k_image k_app (fun c _ => c) (fun c => c).
-Definition area_list_of (g : geo) : list (harea float) := match g with GA a => [a] | GSt l => l | _ => [] end.
+Definition area_list_of (g : geo) : list (harea float) := match g with GA a _ => [a] | GSt l => l | _ => [] end.
 Fixpoint k_run (pool : list geo) (orig : kstate) (fresh : kstate) (o : obj kstate (list (tok float)))
          (l : list (kop * kobs)) : bool :=
   match l with
